@@ -47,6 +47,13 @@ def run(tier):
     sch = cgen(wd, "gen-3c-paged-sim", gp, simulate=2000 if thorough else 150, depth=141)
     v.distinct += len(sch)
     cconform(v, wd, "3c-paged-sim", gp, sch, invs=INV9, page_size=1)
+    # situations random schedules rarely reach: a reader probing candidates that are not the
+    # latest version (incl. a single, uncommitted candidate), a lost compare-and-swap
+    gs = cconsts(Clients={"c1", "c2", "c3"}, Ops={"AV", "GC"}, MaxOps=2, MaxVer=4)
+    for sit in ("probe1", "probe2", "lostcas"):
+        w = csituations(wd, "sit-" + sit, gs, sit, limit=40 if thorough else 12)
+        v.distinct += len(w)
+        cconform(v, wd, "sit-" + sit, gs, w, invs=INV9)
     g4 = cconsts(Clients={"c1", "c2", "c3", "c4"}, Ops=ops, MaxOps=3, MaxVer=16, MaxLen=140,
                  Draws={0, 100, 255})
     sch = cgen(wd, "gen-4c-sim", g4, simulate=2500 if thorough else 150, depth=141)
